@@ -243,12 +243,67 @@ fn gen_case<L: HLang>(rng: &mut Rng) -> (ANode, Vec<(u32, u32)>, usize) {
     let mut g = Gen { rng, smallnum, mode, used_binders: vec![] };
     let mut scope = Vec::new();
     let fields: Vec<AField> = sig[v].kinds.iter().map(|k| g.field(k, &mut scope)).collect();
+    let mut fields = fields;
+    // wide nodes (1 in 10 of the nodes that have a child): the first child gets 17-26 distinct arguments, so the renaming
+    // table of weak_shape grows past the small-map sizes; later slot fields and children re-use some of them
+    let mut wide = false;
+    if rng.chance(1, 10) {
+        fn widen(f: &mut AField, rng: &mut Rng, pool: &mut Vec<u32>, first: &mut bool) {
+            match f {
+                AField::App(a) => {
+                    if *first {
+                        *first = false;
+                        let k = rng.range(17, 26);
+                        let mut vals: Vec<u32> = (0..k as u32).map(|j| 4 * (100 + j)).collect();
+                        rng.shuffle(&mut vals);
+                        let mut m = SlotMap::new();
+                        for (i, v) in vals.iter().enumerate() {
+                            m.insert(slot_of_code(4 * (i as u32 + 1)), slot_of_code(*v));
+                        }
+                        a.m = m;
+                        *pool = vals;
+                    } else if !pool.is_empty() {
+                        let keys: Vec<Slot> = a.m.iter().map(|(k, _)| k).collect();
+                        let mut used: Vec<u32> = Vec::new();
+                        let mut m = SlotMap::new();
+                        for k in keys {
+                            let mut v = pool[rng.below(pool.len())];
+                            let mut tries = 0;
+                            while used.contains(&v) && tries < 10 {
+                                v = pool[rng.below(pool.len())];
+                                tries += 1;
+                            }
+                            if used.contains(&v) {
+                                continue;
+                            }
+                            used.push(v);
+                            m.insert(k, slot_of_code(v));
+                        }
+                        a.m = m;
+                    }
+                }
+                AField::Slot(sl) => {
+                    if !pool.is_empty() && rng.chance(2, 3) {
+                        *sl = slot_of_code(pool[rng.below(pool.len())]);
+                    }
+                }
+                AField::Bind(_, inner) => widen(inner, rng, pool, first),
+                AField::Lit(_) => {}
+            }
+        }
+        let mut pool: Vec<u32> = Vec::new();
+        let mut first = true;
+        for f in fields.iter_mut() {
+            widen(f, rng, &mut pool, &mut first);
+        }
+        wide = !pool.is_empty();
+    }
     let n = ANode { v, fields };
     let mut occ = Vec::new();
     n.fields.iter().for_each(|f| all_occ(f, &mut occ));
     let distinct: Vec<u32> = occ.iter().copied().collect::<BTreeSet<_>>().into_iter().collect();
     // injective renaming: into a disjoint alphabet (shuffled) or a permutation of the names themselves
-    let ren: Vec<(u32, u32)> = if rng.chance(1, 3) {
+    let ren: Vec<(u32, u32)> = if wide || rng.chance(1, 3) {
         let mut img = distinct.clone();
         rng.shuffle(&mut img);
         distinct.iter().copied().zip(img).collect()
